@@ -3,7 +3,7 @@
 From SP Require Import Model.Syntax Model.Scanner.
 From SP Require Import Proofs.PegP Proofs.SyntaxP Proofs.ParseP.
 From SP Require Import Proofs.NumP Proofs.RangeSynP Proofs.OpSynP Proofs.BlockSynP Proofs.RejectP.
-From SP Require Import Proofs.FirstP Proofs.NamesP.
+From SP Require Import Proofs.FirstP Proofs.NamesP Proofs.ArityP.
 
 (* an accepted block is consumed to its very end: nothing is left unparsed *)
 Theorem C12_no_trailing_text :
@@ -255,4 +255,84 @@ Check C12_unknown_operation_examples :
   parse_template [123; 32; 117; 112; 112; 101; 114; 125]%N = Err /\
   parse_template ([123; 33] ++ [117; 112; 101; 114; 124; 108; 111; 119; 101; 114; 125])%N = Err.
 Print Assumptions C12_unknown_operation_examples.
+
+(* the fourteen argument-taking operations: the name followed by a character that is not ":" (nor "_",
+   which continues filter to filter_not) is not an operation, whatever follows.  The alternatives
+   that cannot match are discarded by the computed beginnings, so their order does not matter *)
+Theorem C12_operation_without_its_arguments_is_not_read :
+  forall (name : str) (c : N) (w : str),
+  In name arg_names -> N.eqb 58 c = false -> N.eqb 95 c = false ->
+  run r_operation false (name ++ c :: w) = None.
+Proof. exact operation_without_arguments_fails. Qed.
+Check C12_operation_without_its_arguments_is_not_read :
+  forall (name : str) (c : N) (w : str),
+  In name arg_names -> N.eqb 58 c = false -> N.eqb 95 c = false ->
+  run r_operation false (name ++ c :: w) = None.
+Print Assumptions C12_operation_without_its_arguments_is_not_read.
+
+(* {join}, {split|...}, {append x}, {!pad}, ... *)
+Theorem C12_missing_arguments_at_the_head_are_refused :
+  forall (dbg : bool) (name : str) (c : N) (w : str),
+  In name arg_names -> N.eqb 58 c = false -> N.eqb 95 c = false ->
+  parse_template (123%N :: (if dbg then [33%N] else []) ++ name ++ c :: w) = Err.
+Proof. exact missing_arguments_rejected_at_head. Qed.
+Check C12_missing_arguments_at_the_head_are_refused :
+  forall (dbg : bool) (name : str) (c : N) (w : str),
+  In name arg_names -> N.eqb 58 c = false -> N.eqb 95 c = false ->
+  parse_template (123%N :: (if dbg then [33%N] else []) ++ name ++ c :: w) = Err.
+Print Assumptions C12_missing_arguments_at_the_head_are_refused.
+
+(* after ANY pipeline in any regex-free spelling: a|b|join}, a|split|c, ... *)
+Theorem C12_missing_arguments_after_a_pipeline_are_refused :
+  forall (dbg : bool) (items : list item) (name : str) (c : N) (w : str),
+  items <> [] -> all_spelled spells items ->
+  In name arg_names -> N.eqb 58 c = false -> N.eqb 95 c = false ->
+  parse_template (123%N :: (if dbg then [33%N] else []) ++ pipe_text (texts items) ++ 124%N :: name ++ c :: w) = Err.
+Proof. exact missing_arguments_rejected_after_pipeline. Qed.
+Check C12_missing_arguments_after_a_pipeline_are_refused :
+  forall (dbg : bool) (items : list item) (name : str) (c : N) (w : str),
+  items <> [] -> all_spelled spells items ->
+  In name arg_names -> N.eqb 58 c = false -> N.eqb 95 c = false ->
+  parse_template (123%N :: (if dbg then [33%N] else []) ++ pipe_text (texts items) ++ 124%N :: name ++ c :: w) = Err.
+Print Assumptions C12_missing_arguments_after_a_pipeline_are_refused.
+
+(* upper, lower, reverse, unique, strip_ansi followed by anything but "|" or "}": {upper:x}, {uppercase}, {!unique } *)
+Theorem C12_surplus_after_an_argumentless_operation_is_refused_at_the_head :
+  forall (dbg : bool) (name : str) (c : N) (w : str),
+  In name bare_names -> N.eqb 124 c = false -> N.eqb 125 c = false ->
+  parse_template (123%N :: (if dbg then [33%N] else []) ++ name ++ c :: w) = Err.
+Proof. exact surplus_after_bare_operation_rejected_at_head. Qed.
+Check C12_surplus_after_an_argumentless_operation_is_refused_at_the_head :
+  forall (dbg : bool) (name : str) (c : N) (w : str),
+  In name bare_names -> N.eqb 124 c = false -> N.eqb 125 c = false ->
+  parse_template (123%N :: (if dbg then [33%N] else []) ++ name ++ c :: w) = Err.
+Print Assumptions C12_surplus_after_an_argumentless_operation_is_refused_at_the_head.
+
+(* a|b|upper:x}, a|unique z|c *)
+Theorem C12_surplus_after_an_argumentless_operation_is_refused_after_a_pipeline :
+  forall (dbg : bool) (items : list item) (o : op) (name : str) (c : N) (w : str),
+  items <> [] -> all_spelled spells items -> In (o, name) bare_ops ->
+  N.eqb 124 c = false -> N.eqb 125 c = false ->
+  parse_template (123%N :: (if dbg then [33%N] else []) ++ pipe_text (texts items) ++ 124%N :: name ++ c :: w) = Err.
+Proof. exact surplus_after_bare_operation_rejected_after_pipeline. Qed.
+Check C12_surplus_after_an_argumentless_operation_is_refused_after_a_pipeline :
+  forall (dbg : bool) (items : list item) (o : op) (name : str) (c : N) (w : str),
+  items <> [] -> all_spelled spells items -> In (o, name) bare_ops ->
+  N.eqb 124 c = false -> N.eqb 125 c = false ->
+  parse_template (123%N :: (if dbg then [33%N] else []) ++ pipe_text (texts items) ++ 124%N :: name ++ c :: w) = Err.
+Print Assumptions C12_surplus_after_an_argumentless_operation_is_refused_after_a_pipeline.
+
+(* the two lists, spelled out *)
+Theorem C12_which_names :
+  arg_names = [kw_split; kw_join; kw_substring; kw_append; kw_prepend; kw_surround; kw_quote; kw_slice; kw_map; kw_pad;
+             kw_replace; kw_filter; kw_filter_not; kw_regex_extract]
+/\ bare_names = [kw_upper; kw_lower; kw_reverse; kw_unique; kw_strip_ansi]
+/\ bare_ops = [(Upper, kw_upper); (Lower, kw_lower); (Reverse, kw_reverse); (Unique, kw_unique); (StripAnsi, kw_strip_ansi)].
+Proof. exact arity_tables. Qed.
+Check C12_which_names :
+  arg_names = [kw_split; kw_join; kw_substring; kw_append; kw_prepend; kw_surround; kw_quote; kw_slice; kw_map; kw_pad;
+             kw_replace; kw_filter; kw_filter_not; kw_regex_extract]
+/\ bare_names = [kw_upper; kw_lower; kw_reverse; kw_unique; kw_strip_ansi]
+/\ bare_ops = [(Upper, kw_upper); (Lower, kw_lower); (Reverse, kw_reverse); (Unique, kw_unique); (StripAnsi, kw_strip_ansi)].
+Print Assumptions C12_which_names.
 
